@@ -13,7 +13,7 @@ LEVEL = "exploration"
 TECHNIQUE = "Hypothesis-seeded generated programs with .if/.for compared (a) metamorphically with their mechanically hand-expanded twin (selected branch inlined, loops unrolled with the variable substituted), both assembled by a816, and (b) with an independent reference expansion; fixed boundary cases"
 RULE = (
     "programs with .if (literal zero / non-zero / negative, expressions, := constants, macro parameters, loop variables, undefined names; with and without else) and .for (bounds b<a, b=a, b=a+1, up to 4 iterations, "
-    "from literals, := constants and expressions) whose bodies hold data using the loop variable, labels and self-pointers, nested loops / conditionals, macro applications and blocks.  Oracle 1 (model-free): "
+    "from literals, := constants and expressions) whose bodies hold data using the loop variable, labels and self-pointers, nested loops / conditionals, macro applications, blocks, named scopes (whose exported labels the body refers to) and *= / @= moves whose target depends on the loop variable or a parameter.  Oracle 1 (model-free): "
     ".if -> statements of the selected branch, .for -> one `{ }` per value with the variable replaced by its literal value; identical writes and (outer) labels.  Oracle 2: vlib/model/refasm.py.  "
     "Non-trivial = a loop with >=2 iterations whose body uses the variable, or a nested construct, or a condition that is an expression rather than a literal; distinct by case hash."
 )
